@@ -40,6 +40,9 @@ type connIDManager struct {
 	queueControlFrame         func(wire.Frame)
 
 	closed bool
+
+	// [UQUIC] the active_connection_id_limit advertised to the peer, if it differs from protocol.MaxActiveConnectionIDs
+	connIDLimit uint64
 }
 
 func newConnIDManager(
@@ -65,7 +68,7 @@ func (h *connIDManager) Add(f *wire.NewConnectionIDFrame) error {
 	if err := h.add(f); err != nil {
 		return err
 	}
-	if len(h.queue) >= protocol.MaxActiveConnectionIDs {
+	if len(h.queue) >= h.connectionIDLimit() {
 		return &qerr.TransportError{ErrorCode: qerr.ConnectionIDLimitError}
 	}
 	return nil
